@@ -46,7 +46,7 @@ St    == /\ E.ev = "st" /\ Adv
                  /\ div' = IF Cardinality(div) > 20 THEN div
                            ELSE div \cup (IF <<E.written, E.buffered>> # <<w, b>> THEN {<<l, w, b, E.written, E.buffered>>} ELSE {})
                                     \cup (IF ~(E.written <= cap /\ E.buffered <= cap /\ (E.buffered = E.written \/ (E.buffered = 0 /\ E.written = cap)))
-                                          THEN {<<l, "IndInv", cap, E.written, E.buffered>>} ELSE {})
+                                          THEN {<<l, -1, cap, E.written, E.buffered>>} ELSE {})   \* -1: the inductive invariant itself is broken
                  /\ UNCHANGED <<w, b, insync>>
             ELSE /\ w' = E.written /\ b' = E.buffered /\ insync' = TRUE /\ UNCHANGED <<checked, div>>   \* resynchronise
          /\ UNCHANGED <<cap, tlen, op, len, failed>>
